@@ -172,10 +172,10 @@ def gen_conf(rng, a, size=3):
         if o in MAP_ORIGINS_T:
             kind = {'Dict': ['dict', 'defaultdict', 'ordereddict'], 'DefaultDict': ['defaultdict'],
                     'Mapping': ['dict', 'ordereddict', 'defaultdict'], 'MutableMapping': ['dict', 'defaultdict']}[o]
-            ks = unique([gen_conf(rng, args[0], size) for _ in range(n())])
+            ks = [x for x in unique([gen_conf(rng, args[0], size) for _ in range(n())]) if is_hashable(x)]
             return [rng.choice(kind), [[x, gen_conf(rng, args[1], size)] for x in ks]]
         if o == 'ItemsView':
-            ks = unique([gen_conf(rng, args[0], size) for _ in range(n())])
+            ks = [x for x in unique([gen_conf(rng, args[0], size) for _ in range(n())]) if is_hashable(x)]
             return ['items', [[x, gen_conf(rng, args[1], size)] for x in ks]]
         conts = {'List': ['list'], 'Set': ['set'], 'FrozenSet': ['frozenset'], 'Deque': ['deque'],
                  'Iterable': ['list', 'tuple', 'set', 'deque', 'iter', 'dict', 'keys', 'values', 'frozenset'],
